@@ -14,15 +14,17 @@ pub const TYPES: [u8; 12] = [T_ERROR, T_SESSION, T_REQUEST, T_INSTANCE, T_STATUS
 
 fn rt() -> tokio::runtime::Runtime { tokio::runtime::Builder::new_current_thread().build().unwrap() }
 
-fn ascii(b: &[u8]) -> bool { b.iter().all(|x| *x < 128) }
+/// comparable text: what came out of from_utf8_lossy unharmed (well-formed UTF-8 without U+FFFD); mirrors utf8_clean / utf8_take in coq/Model/Utf8.v
+fn clean(s: &str) -> bool { !s.contains('\u{fffd}') }
+fn clean_bytes(b: &[u8]) -> bool { std::str::from_utf8(b).map(clean).unwrap_or(false) }
 
 /// canonical, comparable form of a decoded packet (mirrors canon_pkt in coq/Model/C13_io.v)
 trait Canon { fn canon(&self) -> Option<Vec<u8>>; }
 impl Canon for SessionError { fn canon(&self) -> Option<Vec<u8>> { Some(self.to_bytes()) } }
 impl Canon for Request { fn canon(&self) -> Option<Vec<u8>> { Some(self.to_bytes()) } }
-impl Canon for Session { fn canon(&self) -> Option<Vec<u8>> { if ascii(self.name().as_bytes()) { Some(self.to_bytes()) } else { None } } }
-impl Canon for Instance { fn canon(&self) -> Option<Vec<u8>> { if ascii(self.model().as_bytes()) && ascii(self.serial_number().as_bytes()) { Some(self.to_bytes()) } else { None } } }
-impl Canon for ModuleStatus { fn canon(&self) -> Option<Vec<u8>> { if ascii(self.name.as_bytes()) { Some(self.to_bytes()) } else { None } } }
+impl Canon for Session { fn canon(&self) -> Option<Vec<u8>> { if clean(self.name()) { Some(self.to_bytes()) } else { None } } }
+impl Canon for Instance { fn canon(&self) -> Option<Vec<u8>> { if clean(self.model()) && clean(self.serial_number()) { Some(self.to_bytes()) } else { None } } }
+impl Canon for ModuleStatus { fn canon(&self) -> Option<Vec<u8>> { if clean(&self.name) { Some(self.to_bytes()) } else { None } } }
 impl Canon for Motion { fn canon(&self) -> Option<Vec<u8>> { Some(self.to_bytes()) } }
 impl Canon for Gnss { fn canon(&self) -> Option<Vec<u8>> { Some(self.to_bytes()) } }
 impl Canon for Engine { fn canon(&self) -> Option<Vec<u8>> { Some(self.to_bytes()) } }
@@ -35,11 +37,11 @@ impl Canon for Actor {
         // walk: u16 len, name, count, (u16 len, name, 24 bytes)*
         let mut i = 0usize;
         let l = ((b[0] as usize) << 8) | b[1] as usize; i += 2;
-        if !ascii(&b[i..i + l]) { return None; } i += l;
+        if !clean_bytes(&b[i..i + l]) { return None; } i += l;
         let cnt = b[i] as usize; i += 1;
         for _ in 0..cnt {
             let l = ((b[i] as usize) << 8) | b[i + 1] as usize; i += 2;
-            if !ascii(&b[i..i + l]) { return None; } i += l;
+            if !clean_bytes(&b[i..i + l]) { return None; } i += l;
             for x in b[i + 12..i + 24].iter_mut() { *x = 0; }
             i += 24;
         }
@@ -179,6 +181,16 @@ fn f32b(x: f32) -> [u8; 4] { x.to_bits().to_be_bytes() }
 fn ang(rng: &mut Rng, lim: f32) -> f32 { (rng.range(-1000, 1000) as f32) / 1000.0 * lim }
 fn name(rng: &mut Rng, max: usize) -> Vec<u8> {
     let n = match rng.below(6) { 0 => 0, 1 => max, 2 => max.min(64), _ => rng.below(max as u64 + 1) as usize };
+    if rng.chance(1, 4) {
+        // valid multi-byte UTF-8 (2-, 3- and 4-byte characters mixed with ASCII): byte length != character count
+        let mut s = String::new();
+        loop {
+            let ch = match rng.below(5) { 0 => '\u{e9}', 1 => '\u{20ac}', 2 => '\u{1f600}', 3 => '\u{7ff}', _ => (b'a' + rng.below(26) as u8) as char };
+            if s.len() + ch.len_utf8() > n { break; }
+            s.push(ch);
+        }
+        return s.into_bytes();
+    }
     (0..n).map(|_| b' ' + rng.below(95) as u8).collect()
 }
 fn str16(v: &mut Vec<u8>, s: &[u8]) { v.extend((s.len() as u16).to_be_bytes()); v.extend(s); }
